@@ -46,6 +46,8 @@ def run(tier, seed):
                           "meta": {"flows": ["absolute"]}, "nonlinear": False})
     progs[0]["obs"].append({"obs": "oracle", "name": "c16", "seed": seed, "n": 16 if tier == "quick" else 200,
                             "maxlen": 7 if tier == "quick" else 10})
+    # any x-axis argument: the same functions over a compartment value, a shifted / scaled time, a parameter
+    progs.append(carrier([{"obs": "oracle", "name": "c10_axis", "seed": seed, "n": 12 if tier == "quick" else 120}]))
     ex = checklib.explore(progs, keys=KEYS, per_prog_timeout=60.0)
     nontrivial = {checklib.signature(p) for p in progs}
     return {"programs": progs, "explore": ex, "distinct_nontrivial": len(nontrivial),
